@@ -162,6 +162,16 @@ func main(a uint64, b [65]uint64) (uint64, bool) {
 	}
 	return x, b[64] > a
 }`,
+	// more than 4096 input bits on the garbler's side and more than 4096 output bits: label batches beyond one
+	// connection buffer (4096 labels are 64 KiB)
+	`package main
+func main(a [520]byte, b [8]byte) ([516]byte, byte) {
+	var r [516]byte
+	for i := 0; i < 516; i++ {
+		r[i] = a[i] ^ b[i%8]
+	}
+	return r, a[519] + b[0]
+}`,
 }
 
 func compileMPCL(src string, params *utils.Params) (*circuit.Circuit, error) {
@@ -284,8 +294,23 @@ func c02Main(args []string) error {
 			switch rng.Intn(4) {
 			case 0:
 				x = new(big.Int).Sub(new(big.Int).Lsh(big.NewInt(1), uint(n0)), big.NewInt(1))
+			case 2:
+				// top bits set on both sides
+				x.SetBit(x, n0-1, 1)
+				if n1 > 0 {
+					y.SetBit(y, n1-1, 1)
+				}
 			case 1:
 				y = big.NewInt(0)
+			}
+			// an input may arrive as a negative number (IOArg.Parse("-5") yields one): its two's complement bits are
+			// the wire values, exactly as for the non-negative number with the same low bits
+			xin, yin := x, y
+			if n0 > 0 && x.Bit(n0-1) == 1 && rng.Intn(2) == 0 {
+				xin = new(big.Int).Sub(x, new(big.Int).Lsh(big.NewInt(1), uint(n0)))
+			}
+			if n1 > 0 && y.Bit(n1-1) == 1 && rng.Intn(2) == 0 {
+				yin = new(big.Int).Sub(y, new(big.Int).Lsh(big.NewInt(1), uint(n1)))
 			}
 			// Compute takes one value per flattened argument: split x and y per argument
 			var ins []*big.Int
@@ -321,7 +346,7 @@ func c02Main(args []string) error {
 					wg.Add(1)
 					go func() {
 						defer wg.Done()
-						srs[j] = runWhole(circ, x, y, o)
+						srs[j] = runWhole(circ, xin, yin, o)
 					}()
 				}
 				wg.Wait()
@@ -332,7 +357,7 @@ func c02Main(args []string) error {
 				out.put(res)
 				continue
 			}
-			sr := runWhole(circ, x, y, sessOpts{ot: k, fragment: rng, randSeed: uint64(seed())<<32 + uint64(i) + 99999, corruptAt: -1})
+			sr := runWhole(circ, xin, yin, sessOpts{ot: k, fragment: rng, randSeed: uint64(seed())<<32 + uint64(i) + 99999, corruptAt: -1})
 			checkSession(res, sr, want, k, fmt.Sprintf("program %d x=%v y=%v", i%len(c02Programs), x, y))
 			res.Class = "program:" + k
 			out.put(res)
